@@ -54,6 +54,10 @@ def is_control(ch: str) -> bool:
     return o < 0x20 or 0x7F <= o <= 0x9F
 
 
+_CTRL = re.compile("[\x00-\x1f\x7f-\x9f]")
+_CTRL_BUT_KEPT = re.compile("[\x00-\x08\x0b\x0c\x0e-\x1f\x7f-\x9f]")  # same minus TAB, LF, CR
+
+
 _BS2_SQ = re.compile(rb"\\\\'")
 _BS2_SP = re.compile(rb"\\\\[\t\n\r]")
 
@@ -118,7 +122,11 @@ def one(data: bytes, t: Tally, sample=False, verbose=False):
         if verbose:
             print("    back=%r" % (back if err is None else err,))
         # clause 2: no raw control characters other than TAB/LF/CR kept on request
-        offending = [c for c in esc if is_control(c) and not (ks and c in KEPT)]
+        # (fast path: one regex search; the explicit scan only runs to report)
+        if (_CTRL_BUT_KEPT if ks else _CTRL).search(esc) is None:
+            offending = []
+        else:
+            offending = [c for c in esc if is_control(c) and not (ks and c in KEPT)]
         if not offending:
             t.ok("no_raw_control_chars_except_kept")
         else:
@@ -186,6 +194,10 @@ def run(ctx):
         "alphabet4_max_len": n4,
         "options": "all 4 (keep_spacing, escape_single_quotes) combinations per string",
     }
+    for o in range(0x120):  # the two fast-path regexes must agree with the definition
+        c = chr(o)
+        if bool(_CTRL.search(c)) != is_control(c) or bool(_CTRL_BUT_KEPT.search(c)) != (is_control(c) and c not in KEPT):
+            raise HarnessError("control-character regex disagrees with is_control at U+%04X" % o)
     tasks = list(gen_tasks(n16, n4))
     total = sum(count(tk) for tk in tasks)
     ctx.log("%d byte strings x 4 option combinations in %d tasks" % (total, len(tasks)))
